@@ -374,7 +374,7 @@ pub fn any_string() -> impl Strategy<Value = String> {
     let piece = prop_oneof![
         8 => prop::sample::select(vec![
             "<", ">", "&", "'", "\"", "]]>", "]]", "--", "?>", "<!--", "<![CDATA[", "</a>", "<a>", "<a/>", "&amp;", "&lt;", "&#32;", "&#x41;", "&unknown;", "&", ";",
-            " ", "\t", "\n", "\r", "  ", "a b", "x", "y", "text", "0", "-1", "true", "1e5", "\u{e9}", "\u{20ac}", "\u{1F600}", "\u{a0}", "\u{2028}", "\u{85}", "=", "/",
+            " ", "\t", "\n", "\r", "  ", "a b", "\u{c}", "\u{b}", "\u{3000}", "\u{1680}", "\u{2003}", "\u{feff}", "x", "y", "text", "0", "-1", "true", "1e5", "\u{e9}", "\u{20ac}", "\u{1F600}", "\u{a0}", "\u{2028}", "\u{85}", "=", "/",
         ]).prop_map(|s| s.to_string()),
         1 => any::<char>().prop_map(|c| c.to_string()),
         1 => "[a-zA-Z0-9_.-]{1,8}",
